@@ -90,6 +90,8 @@ static int check_one(int opt, const char* name, const char* val, long caseno) {
   return 0;
 }
 static void upper(char* d, const char* s) { for (; *s; s++, d++) *d = (char)toupper((unsigned char)*s); *d = 0; }
+/* reads memory next to a global on purpose (under AddressSanitizer that is the red zone: its contents must not change either) */
+__attribute__((no_sanitize_address, noinline)) static void raw_copy(unsigned char* d, const volatile unsigned char* s_, size_t n) { for (size_t i = 0; i < n; i++) d[i] = s_[i]; }
 static void sec_a(void) {
   static const char* bools[] = { "", "1", "0", "true", "false", "yes", "no", "on", "off", "TRUE", "FALSE", "YES", "NO", "ON", "OFF", "True", "fAlSe", "Yes", "oN", "Off" };
   static const char* ints[] = { "-1", "0", "1", "10", "+7", "2147483647", "2147483648", "-2147483649", "9223372036854775807", "9223372036854775808", "-9223372036854775808", "-9223372036854775809",
@@ -142,9 +144,14 @@ static void sec_a(void) {
   }
 #if !MI_DEBUG   /* debug builds assert on an out-of-range index by design */
   { long before[_mi_option_last]; for (int k = 0; k < _mi_option_last; k++) before[k] = options[k].value;
+    /* (what lies directly behind the table must not change either: an index one past the end is out of range too) */
+    unsigned char behind0[sizeof(mi_option_desc_t)], behind1[sizeof(mi_option_desc_t)]; const unsigned char* behind = (const unsigned char*)((uintptr_t)&options[0] + sizeof(options));
+    raw_copy(behind0, behind, sizeof(behind0));
     mi_option_set((mi_option_t)-1, 5); mi_option_set(_mi_option_last, 5); mi_option_set((mi_option_t)1000, 5); mi_option_enable((mi_option_t)-1); mi_option_set_default(_mi_option_last, 3);
     if (mi_option_get((mi_option_t)-1) != 0 || mi_option_get(_mi_option_last) != 0) { VIOL("option-range", "out-of-range option index reads non-zero"); return; }
     for (int k = 0; k < _mi_option_last; k++) if (before[k] != options[k].value) { VIOL("option-range", "out-of-range index changed option %s", options[k].name); return; }
+    raw_copy(behind1, behind, sizeof(behind1));
+    if (memcmp(behind0, behind1, sizeof(behind0)) != 0) { VIOL("option-range", "setting an out-of-range option index wrote behind the option table"); return; }
     VF_INC(nodes); }
 #endif
   reset_options();
